@@ -8,7 +8,7 @@
    the link names a file inside the library, that key IS the loader's key of the named file -
    at any depth of the linking file (the seeded change r3-C14, `Key::parent` cutting at the first
    slash, falsifies exactly this: [first_slash_parent_refuted]). *)
-From IweV Require Import Str RelPath RelPathFacts RelPathLaws Arena Url UrlFacts LinkPaths.
+From IweV Require Import Str Ast RelPath RelPathFacts RelPathLaws Arena Url UrlFacts LinkPaths.
 Local Open Scope string_scope.
 Local Open Scope list_scope.
 
@@ -78,6 +78,22 @@ Proof.
   rewrite resolver_buffer by assumption. rewrite HB. apply render_norms.
 Qed.
 Print Assumptions link_reaches.
+
+(* ... for an INLINE link as for a block reference: the url the graph holds for a link inside a sentence of the
+   note file <dirs>/<stem>.md is that same key (Arena.to_ginline: `Key::from_rel_link_url(url, key.parent())`;
+   `GraphInline::ref_key` reads it as it is), so find-references of the named file lists the linking file.  In the
+   pinned tree the graph held the url as typed (finding F-C14-inline-dir, repaired). *)
+Theorem inline_link_reaches dirs stem url title lt ils t :
+  Forall good_name dirs -> good_name stem ->
+  link_target (dirs ++ [stem]) url = Some t ->
+  to_ginline (key_parent (disk_key (dirs ++ [stem]))) (Link url title lt ils) =
+  Link (disk_key t) title lt (map (to_ginline (key_parent (disk_key (dirs ++ [stem])))) ils).
+Proof.
+  intros Hd Hs H. destruct (link_reaches dirs stem url t Hd Hs H) as [_ E].
+  cbn [to_ginline]. rewrite E.
+  unfold link_target in H. destruct (is_ref_url url); [reflexivity | discriminate].
+Qed.
+Print Assumptions inline_link_reaches.
 
 (* the same for a link that stays inside the library but names no file of it: the key is still the
    loader key the file WOULD have, so it is a note exactly when that file exists; a link that leaves
